@@ -4,6 +4,8 @@
 -/
 import MitmVerif.Lemmas.C01_Roundtrip
 import MitmVerif.Lemmas.C01_Fold
+import MitmVerif.Lemmas.C01_FoldG2
+import MitmVerif.Lemmas.C01_Lines
 namespace MitmVerif.Props.C01
 open MitmVerif MitmVerif.C01
 
@@ -368,20 +370,13 @@ example : Ref.framing [(sTE, [103, 122, 105, 112])] sHttp11 .request [] = .error
 
 /-! ### Round trip of forwarded messages
 
-`ForwardRequestRoundtrip` / `ForwardStreamRoundtrip` below are the full statements of DESIGN §5 C01 (kept as definitions).
-Proved:
-  * `forward_request_roundtrip_nofold` (= the full request statement, incl. edit_stable, for every request whose field
-    values contain no obs-fold: Content-Length, no body, chunked re-framing), its two halves `…_partial` /
-    `…_chunked_partial`, and `forward_stream_roundtrip_nofold` (pipelined messages, by induction);
-  * `relay_response_roundtrip` (responses in the context of the request method: HEAD / 1xx / 204 / 304 shortcuts,
-    Content-Length, chunked re-framing, read-until-close; fold-free values).
-Obs-fold: `forward_request_roundtrip_fold` and `relay_response_roundtrip_fold` prove the same round trips for field values
-given by their CRLF-separated parts (`PField`: `q0 CRLF q1 … qk`, continuations starting with SP/HTAB — the shape `_read_headers`
-builds); the fields are read back as `Ref.unfold` of the recorded ones (`obs_fold_field`, `unfold_join` in Lemmas/C01_Fold.lean).
-Still open: (1) `FramingFieldsPlain` (a folded Content-Length / Transfer-Encoding is rejected by `validate_headers`) is a
-hypothesis of the fold theorems, not derived; (2) values folded with a bare LF (no CR) — possible only through addon edits —
-are not covered; (3) the pipelined-stream theorem exists in the fold-free form only; (4) `ObsFoldNormalisation` below is the
-byte-level formulation of the same lemma over `valueOk` values (not proved in that form; `obs_fold_field` is its structural form). -/
+`ForwardRequestRoundtrip` / `ForwardStreamRoundtrip` below are the full statements of DESIGN §5 C01; they are PROVED at the end
+of this file as `forward_request_roundtrip` and `forward_stream_roundtrip` (no fold-freeness, no decomposition of the values
+assumed: every value `validate_headers` accepts is split by `dec` into parts separated by CR LF or a bare LF — `dec_ok`,
+`joinG_dec` — and read back as `Ref.unfold` of it), together with `relay_response_roundtrip_full` for responses.
+Earlier, more special forms are kept: `…_nofold` (values without line breaks), `…_fold` / `…_obsfold` (values given by
+CRLF-separated parts), `framing_fields_plain` (Content-Length / Transfer-Encoding are never folded).
+`ObsFoldNormalisation` is the byte-level single-field formulation; its content is `obs_fold_field` + `unfold_joinG` + `dec_ok`. -/
 
 /-- byte-level formulation of the obs-fold lemma (stated; proved in the structural form `obs_fold_field`) -/
 def ObsFoldNormalisation : Prop :=
@@ -1466,6 +1461,554 @@ theorem forward_stream_roundtrip_obsfold : ∀ (ms : List (ReqHead × List PFiel
       rw [← hdata, hp]
       simp only
       exact ⟨ih1, by simp [ih2]⟩
+
+/-! ### byte level: every value `validate_headers` accepts (CR LF or bare-LF folds), no decomposition given -/
+
+private theorem head_lines_fields_G {kind : Kind} {version reason : Bytes} (first : Bytes) (gs : List GField)
+    (hv : validateHeaders kind version reason (gs.map GField.field) = true) (hfirst : cleanLine first ∧ first ≠ [])
+    (hnames : ∀ g ∈ gs, (10 : UInt8) ∉ g.name) (hok : ∀ g ∈ gs, g.ok) (tail : Bytes) :
+    Ref.headLines ((first ++ crlf ++ assembleFields (gs.map GField.field) ++ crlf ++ tail).length + 1)
+        (first ++ crlf ++ assembleFields (gs.map GField.field) ++ crlf ++ tail) =
+        .ok (first :: (gs.flatMap GField.tlines).map (·.1), tail) ∧
+    Ref.fields ((gs.flatMap GField.tlines).map (·.1)) = .ok (gs.map GField.ufield) := by
+  have hvc := (validate_cases hv).1
+  have htok : ∀ g ∈ gs, isToken g.name = true ∧ g.ok := by
+    intro g hg
+    refine ⟨?_, hok g hg⟩
+    have h1 := (hvc g.field (List.mem_map_of_mem hg)).1
+    have h2 : dropFinalLF g.name = g.name := by
+      apply dropFinalLF_id
+      intro e
+      exact hnames g hg (List.mem_of_getLast? e)
+    simpa [nameOk, GField.field, h2] using h1
+  have hwire : first ++ crlf ++ assembleFields (gs.map GField.field) ++ crlf ++ tail =
+      renderG ((first, true) :: gs.flatMap GField.tlines) ++ crlf ++ tail := by
+    simp only [assembleFields_G, renderG, sepOf, ↓reduceIte, crlf, List.append_assoc]
+  have hlines : ∀ lt ∈ (first, true) :: gs.flatMap GField.tlines, cleanLine lt.1 ∧ lt.1 ≠ [] := by
+    intro lt hl
+    simp only [List.mem_cons, List.mem_flatMap] at hl
+    rcases hl with rfl | ⟨g, hg, hl⟩
+    · exact hfirst
+    · exact tlines_clean g (htok g hg).1 (hok g hg) lt hl
+  constructor
+  · rw [hwire]
+    have := headLines_renderG ((first, true) :: gs.flatMap GField.tlines) ((renderG ((first, true) :: gs.flatMap GField.tlines) ++ crlf ++ tail).length + 1) tail hlines (by
+      have := renderG_length ((first, true) :: gs.flatMap GField.tlines)
+      simp only [List.length_append] at this ⊢
+      omega)
+    simpa using this
+  · have := fieldsAux_G gs [] htok
+    simp only [List.reverse_nil, List.nil_append] at this
+    rw [Ref.fields, this]
+    have hnul : ((gs.map GField.ufield).all fun f => !f.2.contains 0) = true := by
+      apply List.all_eq_true.mpr
+      intro f hf
+      obtain ⟨g, hg, rfl⟩ := List.mem_map.mp hf
+      have := gufield_no_nul g (hok g hg)
+      simpa using this
+    simp only [hnul, ↓reduceIte]
+
+private theorem head_parse_G (r : ReqHead) (hv : validateHeaders .request r.version [] r.fields = true)
+    (hl : RequestLineOk r) (gs : List GField) (hpf : r.fields = gs.map GField.field) (hok : ∀ g ∈ gs, g.ok) (tail : Bytes) :
+    ∃ line, Ref.headLines ((assembleRequestHead r ++ tail).length + 1) (assembleRequestHead r ++ tail) =
+        .ok (line :: (gs.flatMap GField.tlines).map (·.1), tail) ∧
+      Ref.requestLine line = some (r.method, requestTarget r, r.version) ∧
+      Ref.fields ((gs.flatMap GField.tlines).map (·.1)) = .ok (gs.map GField.ufield) := by
+  obtain ⟨hm, hmw, ht, htw, hver, hnames⟩ := hl
+  obtain ⟨hreq, hclean, hlne⟩ := requestLine_assembled hm hmw ht htw hver
+  have hnames' : ∀ g ∈ gs, (10 : UInt8) ∉ g.name := by
+    intro g h
+    have := hnames g.field (by rw [hpf]; exact List.mem_map_of_mem h)
+    simpa [GField.field] using this
+  rw [hpf] at hv
+  obtain ⟨h1, h2⟩ := head_lines_fields_G (r.method ++ [32] ++ requestTarget r ++ [32] ++ r.version) gs hv ⟨hclean, hlne⟩ hnames' hok tail
+  refine ⟨_, ?_, hreq, h2⟩
+  have : assembleRequestHead r ++ tail =
+      r.method ++ [32] ++ requestTarget r ++ [32] ++ r.version ++ crlf ++ assembleFields (gs.map GField.field) ++ crlf ++ tail := by
+    simp [assembleRequestHead, hpf, List.append_assoc]
+  rw [this]; exact h1
+
+private theorem frr_G_nte (r : ReqHead) (body rest : Bytes)
+    (hv : validateHeaders .request r.version [] r.fields = true) (hl : RequestLineOk r)
+    (hte : getAll r.fields sTE = [])
+    (gs : List GField) (hpf : r.fields = gs.map GField.field) (hok : ∀ pf ∈ gs, pf.ok) (hfp : FramingFieldsPlainG gs)
+    (hb : BodyConsistent r body) :
+    ∃ fr, Ref.parseRequest (forwardRequest r body ++ rest) =
+      .ok (⟨r.method, requestTarget r, r.version, gs.map GField.ufield, body, fr⟩, rest) := by
+  have hnc : sendsChunked r.fields = false := by simp [sendsChunked, getJoined_none hte]
+  have hwire : forwardRequest r body ++ rest = assembleRequestHead r ++ (body ++ rest) := by
+    simp [forwardRequest, hnc, List.append_assoc]
+  obtain ⟨line, hhead, hreq, hflds⟩ := head_parse_G r hv hl gs hpf hok (body ++ rest)
+  obtain ⟨sz, fr, hsz, hfr, hag⟩ := framing_agrees .request r.version [] [] r.fields hv
+  have hsz' : requestBodySize r = some sz := by simpa [proxySize, requestBodySize] using hsz
+  unfold Ref.parseRequest
+  rw [hwire, hhead]
+  have hfrF : Ref.framing (gs.map GField.ufield) r.version .request [] = .ok fr := by
+    rw [framing_G gs hok hfp, ← hpf]; exact hfr
+  simp only [hreq, hflds, hfrF]
+  unfold BodyConsistent at hb
+  rw [hsz'] at hb
+  cases sz with
+  | chunked =>
+    exfalso
+    simp [requestBodySize, sizeFromHeaders, getJoined_none hte] at hsz'
+    cases hc : getJoined r.fields sCL with
+    | none => simp [hc] at hsz'
+    | some cl =>
+      simp [hc] at hsz'
+      split at hsz'
+      · simp at hsz'
+      · cases hp : parseCL cl <;> simp [hp] at hsz'
+  | untilEof => exact absurd hb (by simp)
+  | len n =>
+    simp only at hb
+    cases fr with
+    | none =>
+      simp only [Agree] at hag
+      subst hag
+      have : body = [] := by cases body <;> simp at hb ⊢
+      subst this
+      exact ⟨.none, by simp⟩
+    | cl m =>
+      simp only [Agree] at hag
+      subst hag
+      refine ⟨.cl n, ?_⟩
+      have h1 : ¬ (body ++ rest).length < n := by simp; omega
+      simp only [h1, ↓reduceIte]
+      rw [List.take_append_of_le_length (by omega), List.drop_append_of_le_length (by omega)]
+      simp [← hb]
+    | chunked => simp [Agree] at hag
+    | eof => simp [Agree] at hag
+
+
+private theorem frr_G_te (r : ReqHead) (body rest : Bytes)
+    (hv : validateHeaders .request r.version [] r.fields = true) (hl : RequestLineOk r)
+    (hte : getAll r.fields sTE ≠ [])
+    (gs : List GField) (hpf : r.fields = gs.map GField.field) (hok : ∀ pf ∈ gs, pf.ok) (hfp : FramingFieldsPlainG gs) :
+    Ref.parseRequest (forwardRequest r body ++ rest) =
+      .ok (⟨r.method, requestTarget r, r.version, gs.map GField.ufield, body, .chunked⟩, rest) := by
+  -- validate_headers leaves exactly one Transfer-Encoding value, classified "chunked final"
+  obtain ⟨_, hc⟩ := validate_cases hv
+  rcases hc with ⟨t, cls, w, hte1, hcl, hver, hpt, hk⟩ | ⟨c, n, hte0, _, _⟩ | ⟨hte0, _⟩
+  · simp only at hk
+    subst hk
+    have hsc : sendsChunked r.fields = true := by
+      simp [sendsChunked, getJoined_single hte1, sendsChunked_of_parseTE hpt]
+    obtain ⟨sz, fr, hsz, hfr, hag⟩ := framing_agrees .request r.version [] [] r.fields hv
+    have hsz' : sz = .chunked := by
+      have htne : t ≠ [] := parseTE_nonempty hpt
+      simp [proxySize, sizeFromHeaders, getJoined_single hte1, htne, hpt] at hsz
+      exact hsz.symm
+    subst hsz'
+    have hfr' : Ref.framing r.fields r.version .request [] = .ok .chunked := by
+      cases fr <;> simp [Agree] at hag
+      exact hfr
+    let payload := (if body.isEmpty then [] else chunk body) ++ lastChunk
+    have hwire : forwardRequest r body ++ rest = assembleRequestHead r ++ (payload ++ rest) := by
+      simp [forwardRequest, hsc, payload, List.append_assoc]
+    obtain ⟨line, hhead, hreq, hflds⟩ := head_parse_G r hv hl gs hpf hok (payload ++ rest)
+    unfold Ref.parseRequest
+    rw [hwire, hhead]
+    have hfrF : Ref.framing (gs.map GField.ufield) r.version .request [] = .ok .chunked := by
+      rw [framing_G gs hok hfp, ← hpf]; exact hfr'
+    simp only [hreq, hflds, hfrF]
+    have hchunk : Ref.chunkedBody ((payload ++ rest).length + 1) (payload ++ rest) [] false = .ok (body, rest) := by
+      by_cases hb : body = []
+      · subst hb
+        have hl5 : (payload ++ rest).length + 1 = (rest.length + 4) + 2 := by simp [payload, lastChunk]
+        rw [hl5]
+        simpa [payload] using chunkedBody_last (rest.length + 4) [] rest
+      · have hbe : body.isEmpty = false := by cases body <;> simp at hb ⊢
+        have hp : payload ++ rest = chunk body ++ lastChunk ++ rest := by simp [payload, hbe]
+        rw [hp]
+        have : (chunk body ++ lastChunk ++ rest).length + 1 = ((chunk body ++ lastChunk ++ rest).length - 2) + 3 := by
+          simp [lastChunk]; omega
+        rw [this]
+        exact chunkedBody_chunk _ body rest hb
+    rw [hchunk]
+  · exact absurd hte0 hte
+  · exact absurd hte0 hte
+
+
+private theorem relay_response_roundtrip_G (reqMethod : Bytes) (r : RespHead) (body rest : Bytes) (eof : Bool)
+    (hv : validateHeaders (.response r.status) r.version r.reason r.fields = true)
+    (hhd : versionOk r.version = true ∧ (100 ≤ r.status ∧ r.status ≤ 999) ∧ cleanLine r.reason)
+    (gs : List GField) (hpf : r.fields = gs.map GField.field) (hnm : ∀ pf ∈ gs, (10 : UInt8) ∉ pf.name) (hokf : ∀ pf ∈ gs, pf.ok)
+    (hfp : FramingFieldsPlainG gs)
+    (hconn : ¬(asciiUpper reqMethod = sCONNECT ∧ 200 ≤ r.status ∧ r.status ≤ 299))
+    (hb : RespBodyConsistent reqMethod r body rest eof) :
+    ∃ fr, Ref.parseResponse reqMethod eof (relayResponse reqMethod r body ++ rest) =
+      .ok (⟨r.version, decDigits r.status, r.reason, gs.map GField.ufield, body, fr⟩, rest) := by
+  obtain ⟨hver, hst, hreason⟩ := hhd
+  have hvF : validateHeaders (.response r.status) r.version r.reason (gs.map GField.field) = true := by rw [← hpf]; exact hv
+  obtain ⟨line, hline⟩ : ∃ l, l = r.version ++ [32] ++ decDigits r.status ++ [32] ++ r.reason := ⟨_, rfl⟩
+  obtain ⟨hsl, hdig, hclean, hlne⟩ := statusLine_assembled hver hst hreason
+  rw [← hline] at hsl hdig hclean hlne
+  -- payload written after the head
+  obtain ⟨payload, hpay⟩ : ∃ p, relayResponse reqMethod r body = assembleResponseHead r ++ p := ⟨_, rfl⟩
+  have hhead_eq : assembleResponseHead r = line ++ crlf ++ assembleFields r.fields ++ crlf := by
+    simp [assembleResponseHead, hline, List.append_assoc]
+  obtain ⟨hhead, hflds⟩ := head_lines_fields_G line gs hvF ⟨hclean, hlne⟩ hnm hokf (payload ++ rest)
+  rw [← hpf] at hhead
+  have hwire : relayResponse reqMethod r body ++ rest = line ++ crlf ++ assembleFields r.fields ++ crlf ++ (payload ++ rest) := by
+    rw [hpay, hhead_eq]; simp [List.append_assoc]
+  obtain ⟨sz, fr, hsz, hfr, hag⟩ := framing_agrees (.response r.status) r.version r.reason reqMethod r.fields hv
+  have hsz' : responseBodySize reqMethod r = some sz := by
+    have : (⟨[], r.status, [], r.fields⟩ : RespHead) = ⟨[], r.status, [], r.fields⟩ := rfl
+    simpa [proxySize, responseBodySize] using hsz
+  unfold Ref.parseResponse
+  rw [hwire, hhead]
+  have hfrF : Ref.framing (gs.map GField.ufield) r.version (.response r.status) reqMethod = .ok fr := by
+    rw [framing_G gs hokf hfp, ← hpf]; exact hfr
+  simp only [hsl, hflds, hfrF, hdig]
+  unfold RespBodyConsistent at hb
+  rw [hsz'] at hb
+  -- what the payload is
+  have hpay' : payload =
+      (if sendsChunked r.fields then
+         (if (!body.isEmpty && !(asciiUpper reqMethod = sHEAD || r.status = 204 || r.status = 304)) then chunk body else []) ++
+         (if asciiUpper reqMethod ≠ sHEAD ∧ !noBodyStatus r.status then lastChunk else [])
+       else (if (!body.isEmpty && !(asciiUpper reqMethod = sHEAD || r.status = 204 || r.status = 304)) then body else [])) := by
+    have := hpay
+    simp only [relayResponse] at this
+    exact (List.append_cancel_left this).symm
+  by_cases hnb : Ref.noBody (.response r.status) reqMethod = true
+  · -- HEAD / 1xx / 204 / 304: nothing follows the head
+    have hp0 := proxy_nobody r.fields hnb
+    rw [hsz] at hp0
+    simp at hp0; subst hp0
+    simp only at hb
+    have hbody : body = [] := by cases body <;> simp at hb ⊢
+    subst hbody
+    have hfr0 : fr = .none := by
+      have := hfr
+      unfold Ref.framing at this
+      -- with noBody the reference reader answers `none` once the checks passed: read it off `Agree`
+      cases fr <;> simp [Agree] at hag ⊢
+      · rename_i m
+        -- `.cl m` is impossible when noBody holds
+        exfalso
+        revert this
+        simp only [hnb]
+        intro this
+        split at this
+        · simp at this
+        · split at this
+          · simp at this
+          · split at this
+            · simp at this
+            · simp at this
+    subst hfr0
+    have hnl : (asciiUpper reqMethod ≠ sHEAD ∧ (!noBodyStatus r.status) = true) → False := by
+      intro hh
+      simp only [Ref.noBody, Bool.or_eq_true, Bool.and_eq_true, decide_eq_true_eq] at hnb
+      rcases hnb with (h | h) | h
+      · exact hh.1 h
+      · simp [h] at hh
+      · exact hconn ⟨h.1.1, h.1.2, h.2⟩
+    have : payload = [] := by
+      rw [hpay']
+      by_cases hsc : sendsChunked r.fields = true
+      · simp [hsc]
+        intro h1 h2
+        exact (hnl ⟨h1, by simpa using h2⟩).elim
+      · simp [hsc]
+    subst this
+    exact ⟨.none, by simp⟩
+  · have hnb' : Ref.noBody (.response r.status) reqMethod = false := by simpa using hnb
+    -- data is written whenever the body is non-empty
+    have hnh : asciiUpper reqMethod ≠ sHEAD ∧ noBodyStatus r.status = false := by
+      simp only [Ref.noBody, Bool.or_eq_false_iff, Bool.and_eq_false_iff, decide_eq_false_iff_not] at hnb'
+      exact ⟨hnb'.1.1, hnb'.1.2⟩
+    have hnot : (asciiUpper reqMethod = sHEAD || r.status = 204 || r.status = 304) = false := by
+      have h2 := hnh.2
+      simp only [noBodyStatus, Bool.or_eq_false_iff, decide_eq_false_iff_not] at h2
+      simp [hnh.1, h2.1.2, h2.2]
+    have h204 : r.status ≠ 204 ∧ r.status ≠ 304 := by
+      have h2 := hnh.2
+      simp only [noBodyStatus, Bool.or_eq_false_iff, decide_eq_false_iff_not] at h2
+      exact ⟨h2.1.2, h2.2⟩
+    obtain ⟨_, hcases⟩ := validate_cases hv
+    cases sz with
+    | len n =>
+      simp only at hb
+      -- no Transfer-Encoding
+      have hte : getAll r.fields sTE = [] := by
+        rcases hcases with ⟨t, cls, w, hte1, _, _, hpt, _⟩ | ⟨c, m, hte0, _, _⟩ | ⟨hte0, _⟩
+        · exfalso
+          have htne := parseTE_nonempty hpt
+          rw [proxy_body r.fields hnb'] at hsz
+          cases cls <;> simp [sizeFromHeaders, getJoined_single hte1, htne, hpt] at hsz
+        · exact hte0
+        · exact hte0
+      have hnc : sendsChunked r.fields = false := by simp [sendsChunked, getJoined_none hte]
+      have hp : payload = body := by
+        rw [hpay']; simp [hnc, hnh.1, h204.1, h204.2] <;> (intro hbe; cases body <;> simp_all)
+      subst hp
+      cases fr with
+      | none =>
+        simp only [Agree] at hag; subst hag
+        have : payload = [] := by cases payload <;> simp at hb ⊢
+        subst this
+        exact ⟨.none, by simp⟩
+      | cl m =>
+        simp only [Agree] at hag; subst hag
+        refine ⟨.cl n, ?_⟩
+        have h1 : ¬ (payload ++ rest).length < n := by simp; omega
+        simp only [h1, ↓reduceIte]
+        rw [List.take_append_of_le_length (by omega), List.drop_append_of_le_length (by omega)]
+        simp [← hb]
+      | chunked => simp [Agree] at hag
+      | eof => simp [Agree] at hag
+    | chunked =>
+      have hfrc : fr = .chunked := by cases fr <;> simp [Agree] at hag ⊢
+      subst hfrc
+      have hsc : sendsChunked r.fields = true := by
+        rcases hcases with ⟨t, cls, w, hte1, _, _, hpt, _⟩ | ⟨c, m, hte0, hcl1, hpc⟩ | ⟨hte0, hcl0⟩
+        · have htne := parseTE_nonempty hpt
+          rw [proxy_body r.fields hnb'] at hsz
+          cases cls with
+          | chunkedFinal => simp [sendsChunked, getJoined_single hte1, sendsChunked_of_parseTE hpt]
+          | other => simp [sizeFromHeaders, getJoined_single hte1, htne, hpt] at hsz
+        · exfalso
+          rw [proxy_body r.fields hnb'] at hsz
+          have hcne : c ≠ [] := by intro e; subst e; simp [parseCL, dropFinalLF, clDigits] at hpc
+          simp [sizeFromHeaders, getJoined_none hte0, getJoined_single hcl1, hcne, hpc] at hsz
+        · exfalso
+          rw [proxy_body r.fields hnb'] at hsz
+          simp [sizeFromHeaders, getJoined_none hte0, getJoined_none hcl0] at hsz
+      have hlast : (asciiUpper reqMethod ≠ sHEAD ∧ (!noBodyStatus r.status) = true) := ⟨hnh.1, by simp [hnh.2]⟩
+      refine ⟨.chunked, ?_⟩
+      have hchunk : Ref.chunkedBody ((payload ++ rest).length + 1) (payload ++ rest) [] false = .ok (body, rest) := by
+        by_cases hbe : body = []
+        · subst hbe
+          have hp : payload = lastChunk := by rw [hpay']; simp [hsc, hlast]
+          subst hp
+          have hl5 : (lastChunk ++ rest).length + 1 = (rest.length + 4) + 2 := by simp [lastChunk]
+          rw [hl5]
+          exact chunkedBody_last (rest.length + 4) [] rest
+        · have hbne : body.isEmpty = false := by cases body <;> simp at hbe ⊢
+          have hp : payload = chunk body ++ lastChunk := by rw [hpay']; simp [hsc, hlast, hbne, hnh.1, h204.1, h204.2]
+          subst hp
+          have : (chunk body ++ lastChunk ++ rest).length + 1 = ((chunk body ++ lastChunk ++ rest).length - 2) + 3 := by
+            simp [lastChunk]; omega
+          rw [this]
+          exact chunkedBody_chunk _ body rest hbe
+      rw [hchunk]
+    | untilEof =>
+      obtain ⟨heof, hrest⟩ := hb
+      subst heof; subst hrest
+      have hfre : fr = .eof := by cases fr <;> simp [Agree] at hag ⊢
+      subst hfre
+      have hnc : sendsChunked r.fields = false := by
+        rcases hcases with ⟨t, cls, w, hte1, _, _, hpt, _⟩ | ⟨c, m, hte0, _, _⟩ | ⟨hte0, _⟩
+        · have htne := parseTE_nonempty hpt
+          rw [proxy_body r.fields hnb'] at hsz
+          cases cls with
+          | chunkedFinal => simp [sizeFromHeaders, getJoined_single hte1, htne, hpt] at hsz
+          | other => simp [sendsChunked, getJoined_single hte1, not_sendsChunked_of_parseTE_other hpt]
+        · simp [sendsChunked, getJoined_none hte0]
+        · simp [sendsChunked, getJoined_none hte0]
+      have hp : payload = body := by
+        rw [hpay']; simp [hnc, hnh.1, h204.1, h204.2] <;> (intro hbe; cases body <;> simp_all)
+      subst hp
+      exact ⟨.eof, by simp⟩
+
+private theorem framing_fields_plain_G (kind : Kind) (version reason : Bytes) (gs : List GField)
+    (hv : validateHeaders kind version reason (gs.map GField.field) = true) : FramingFieldsPlainG gs := by
+  intro g hg hname
+  obtain ⟨hall, hc⟩ := validate_cases hv
+  have hmem : g.field ∈ gs.map GField.field := List.mem_map_of_mem hg
+  have key : (13 : UInt8) ∉ g.value ∧ (10 : UInt8) ∉ g.value ∧ stripBy isOws g.value = g.value := by
+    rcases hname with hn | hn
+    · have hv1 : g.value ∈ getAll (gs.map GField.field) sTE := mem_getAll hmem (by simpa [GField.field] using hn)
+      rcases hc with ⟨t, cls, w, hte, _, _, hpt, _⟩ | ⟨c, n, hte, _, _⟩ | ⟨hte, _⟩
+      · rw [hte] at hv1; simp at hv1; rw [hv1]
+        exact ⟨(parseTE_plain hpt).1, (parseTE_plain_lf hpt).1, (parseTE_plain hpt).2⟩
+      · rw [hte] at hv1; simp at hv1
+      · rw [hte] at hv1; simp at hv1
+    · have hv1 : g.value ∈ getAll (gs.map GField.field) sCL := mem_getAll hmem (by simpa [GField.field] using hn)
+      rcases hc with ⟨t, cls, w, _, hcl, _, _, _⟩ | ⟨c, n, _, hcl, hpc⟩ | ⟨_, hcl⟩
+      · rw [hcl] at hv1; simp at hv1
+      · rw [hcl] at hv1; simp at hv1; subst hv1
+        have hvo : valueOk g.value = true := (hall g.field hmem).2
+        have hpc' : clDigits g.value = some n := by
+          have := dropFinalLF_id (valueOk_last hvo)
+          simpa [parseCL, this] using hpc
+        obtain ⟨_, hd, _⟩ := clDigits_spec hpc'
+        refine ⟨?_, ?_, ?_⟩
+        · intro hm
+          have := List.all_eq_true.mp hd 13 hm
+          revert this; decide
+        · intro hm
+          have := List.all_eq_true.mp hd 10 hm
+          revert this; decide
+        · exact stripBy_all_false (by
+            apply List.all_eq_true.mpr
+            intro x hx
+            exact digit_not_ows x (List.all_eq_true.mp hd x hx))
+      · rw [hcl] at hv1; simp at hv1
+  exact gvalue_plain g key.1 key.2.1 key.2.2
+
+private theorem ofField_map (fs : List Field) : (fs.map GField.ofField).map GField.field = fs := by
+  induction fs with
+  | nil => rfl
+  | cons f rest ih => simp [ofField_field, ih]
+
+private theorem ofField_umap (fs : List Field) :
+    (fs.map GField.ofField).map GField.ufield = fs.map (fun f => (f.1, Ref.unfold f.2)) := by
+  induction fs with
+  | nil => rfl
+  | cons f rest ih =>
+    have : (GField.ofField f).ufield = (f.1, Ref.unfold f.2) := by
+      have := ofField_field f
+      simp only [GField.field, GField.ufield] at this ⊢
+      have hv : (GField.ofField f).value = f.2 := by simpa using congrArg Prod.snd this
+      rw [hv]; rfl
+    simp [this, ih]
+
+/-- **forward_request_roundtrip**: the full statement `ForwardRequestRoundtrip` (DESIGN §5 C01 (1) and (5) edit_stable): for EVERY
+    request `validate_headers` accepts — whatever folds its values contain — with whitespace-free request-line parts and a
+    consistent body, the reference reader reads the written bytes back as method, target, version, the fields with
+    `Ref.unfold` of their values, and the body; no decomposition of the values is assumed (it is computed: `dec`, `dec_ok`) -/
+theorem forward_request_roundtrip : ForwardRequestRoundtrip := by
+  intro r body rest hv hl hb
+  have hvc := (validate_cases hv).1
+  let gs := r.fields.map GField.ofField
+  have hpf : r.fields = gs.map GField.field := (ofField_map r.fields).symm
+  have hok : ∀ g ∈ gs, g.ok := by
+    intro g hg
+    obtain ⟨f, hf, rfl⟩ := List.mem_map.mp hg
+    exact ofField_ok f (hvc f hf).2
+  have hfp : FramingFieldsPlainG gs := framing_fields_plain_G .request r.version [] gs (by rw [← hpf]; exact hv)
+  rw [← ofField_umap r.fields]
+  by_cases hte : getAll r.fields sTE = []
+  · exact frr_G_nte r body rest hv hl hte gs hpf hok hfp hb
+  · exact ⟨.chunked, frr_G_te r body rest hv hl hte gs hpf hok hfp⟩
+
+/-- **relay_response_roundtrip_full**: `relay_response_roundtrip` for EVERY accepted response (no fold-freeness assumed) -/
+theorem relay_response_roundtrip_full (reqMethod : Bytes) (r : RespHead) (body rest : Bytes) (eof : Bool)
+    (hv : validateHeaders (.response r.status) r.version r.reason r.fields = true)
+    (hhd : versionOk r.version = true ∧ (100 ≤ r.status ∧ r.status ≤ 999) ∧ cleanLine r.reason)
+    (hnm : ∀ f ∈ r.fields, (10 : UInt8) ∉ f.1)
+    (hconn : ¬(asciiUpper reqMethod = sCONNECT ∧ 200 ≤ r.status ∧ r.status ≤ 299))
+    (hb : RespBodyConsistent reqMethod r body rest eof) :
+    ∃ fr, Ref.parseResponse reqMethod eof (relayResponse reqMethod r body ++ rest) =
+      .ok (⟨r.version, decDigits r.status, r.reason, r.fields.map (fun f => (f.1, Ref.unfold f.2)), body, fr⟩, rest) := by
+  have hvc := (validate_cases hv).1
+  let gs := r.fields.map GField.ofField
+  have hpf : r.fields = gs.map GField.field := (ofField_map r.fields).symm
+  have hok : ∀ g ∈ gs, g.ok := by
+    intro g hg
+    obtain ⟨f, hf, rfl⟩ := List.mem_map.mp hg
+    exact ofField_ok f (hvc f hf).2
+  have hnm' : ∀ g ∈ gs, (10 : UInt8) ∉ g.name := by
+    intro g hg
+    obtain ⟨f, hf, rfl⟩ := List.mem_map.mp hg
+    exact hnm f hf
+  have hfp : FramingFieldsPlainG gs := framing_fields_plain_G (.response r.status) r.version r.reason gs (by rw [← hpf]; exact hv)
+  rw [← ofField_umap r.fields]
+  exact relay_response_roundtrip_G reqMethod r body rest eof hv hhd gs hpf hnm' hok hfp hconn hb
+
+/-- **forward_stream_roundtrip**: the full statement `ForwardStreamRoundtrip` (pipelined messages, by induction) -/
+theorem forward_stream_roundtrip : ForwardStreamRoundtrip := by
+  intro ms h
+  suffices H : ∀ (ms : List (ReqHead × Bytes)) (f : Nat),
+      (∀ m ∈ ms, validateHeaders .request m.1.version [] m.1.fields = true ∧ RequestLineOk m.1 ∧ BodyConsistent m.1 m.2) →
+      ms.length < f →
+      (Ref.parseRequests f (ms.map fun m => forwardRequest m.1 m.2).flatten).2 = none ∧
+      (Ref.parseRequests f (ms.map fun m => forwardRequest m.1 m.2).flatten).1.map (fun m => (m.a, m.b, m.body)) =
+        ms.map (fun m => (m.1.method, requestTarget m.1, m.2)) by
+    apply H ms _ h
+    have : ∀ (l : List (ReqHead × Bytes)), l.length ≤ ((l.map fun m => forwardRequest m.1 m.2).flatten).length := by
+      intro l
+      induction l with
+      | nil => simp
+      | cons m rest ih =>
+        have : 0 < (forwardRequest m.1 m.2).length := by simp [forwardRequest, assembleRequestHead, crlf]; omega
+        simp only [List.map_cons, List.flatten_cons, List.length_append, List.length_cons]
+        omega
+    have := this ms
+    omega
+  intro ms
+  induction ms with
+  | nil =>
+    intro f _ hf
+    cases f with
+    | zero => omega
+    | succ f => simp [Ref.parseRequests]
+  | cons m ms ih =>
+    intro f h hf
+    obtain ⟨r, body⟩ := m
+    cases f with
+    | zero => omega
+    | succ f =>
+      obtain ⟨hv, hl, hb⟩ := h (r, body) (by simp)
+      obtain ⟨ih1, ih2⟩ := ih f (fun m hm => h m (by simp [hm])) (by simp at hf; omega)
+      obtain ⟨c, tl, hct, h10, h13⟩ := forward_head hl body
+      obtain ⟨fr, hp⟩ := forward_request_roundtrip r body (ms.map fun m => forwardRequest m.1 m.2).flatten hv hl hb
+      simp only [List.map_cons, List.flatten_cons]
+      have hdata : forwardRequest r body ++ (ms.map fun m => forwardRequest m.1 m.2).flatten =
+          c :: (tl ++ (ms.map fun m => forwardRequest m.1 m.2).flatten) := by rw [hct]; rfl
+      rw [Ref.parseRequests.eq_def]
+      simp only
+      rw [hdata]
+      simp only [h10, h13, false_and, ↓reduceIte]
+      rw [← hdata, hp]
+      simp only
+      exact ⟨ih1, by simp [ih2]⟩
+
+/-! ### "ambiguous messages are rejected", for the head LINES as both readers see them -/
+
+/-- **lines_ambiguous_rejected** (DESIGN §5 C01 (3) at the level of the raw head lines): take any list of head lines without
+    CR/LF inside them.  If `_read_headers` accepts them (giving the recorded fields `fs`) while the strict reference reader,
+    reading the SAME lines, finds the message ambiguous — a field name that is not a token, or ambiguous framing of the
+    fields as IT reads them (folds replaced by SP, OWS removed) — then `validate_headers` rejects the recorded message.
+    So no message is forwarded whose head a strict reader calls ambiguous, although the two readers represent folded and
+    padded values differently. -/
+theorem lines_ambiguous_rejected (kind : Kind) (version reason reqMethod : Bytes) (ls : List Bytes) (fs : List Field) (c : Nat)
+    (hclean : ∀ l ∈ ls, cleanLine l) (hread : readHeaders ls = some fs)
+    (hamb : Ref.fields ls = .error (.ambiguous c) ∨
+            ∃ fsR, Ref.fields ls = .ok fsR ∧ Ref.framing fsR version kind reqMethod = .error (.ambiguous c)) :
+    validateHeaders kind version reason fs = false := by
+  cases hv : validateHeaders kind version reason fs with
+  | false => rfl
+  | true =>
+    exfalso
+    -- what `_read_headers` recorded, with the parts of the values
+    have hg := readHeadersAux_group ls []
+    simp only [List.map_nil] at hg
+    unfold readHeaders at hread
+    rw [hg] at hread
+    cases hgr : groupAux ls [] with
+    | none => simp [hgr] at hread
+    | some pfs =>
+      simp [hgr] at hread
+      subst hread
+      obtain ⟨hcl, hR⟩ := fieldsAux_group ls [] pfs hclean (by simp) hgr
+      have hnm := group_names_clean ls [] pfs hclean (by simp) hgr
+      have hvc := (validate_cases hv).1
+      simp only [List.map_nil] at hR
+      rcases hR with ⟨pf, hpf, htok, hbad⟩ | hok
+      · -- a non-token name: validate_headers has refused it
+        have h1 := (hvc pf.field (List.mem_map_of_mem hpf)).1
+        have h2 : dropFinalLF pf.name = pf.name := by
+          apply dropFinalLF_id
+          intro e
+          exact hnm pf hpf (List.mem_of_getLast? e)
+        simp [nameOk, PField.field, h2, htok] at h1
+      · have hfp := framing_fields_plain kind version reason pfs hv
+        have hfr := framing_fold' pfs (fun pf hpf => (hcl pf hpf).1) hfp version kind reqMethod
+        obtain ⟨_, fr, _, hfrok, _⟩ := framing_agrees kind version reason reqMethod (pfs.map PField.field) hv
+        rcases hamb with hamb | ⟨fsR, hfs, hfa⟩
+        · -- the reference reader did read the fields: Ref.fields is not an ambiguity error
+          simp only [Ref.fields, hok] at hamb
+          split at hamb <;> simp at hamb
+        · simp only [Ref.fields, hok] at hfs
+          split at hfs
+          · simp at hfs; subst hfs
+            rw [hfr, hfrok] at hfa; simp at hfa
+          · simp at hfs
 
 /-- a folded field satisfying the hypotheses of the fold theorems: `X: a CRLF SP b` -/
 example : (⟨[88], [97], [[32, 98]]⟩ : PField).ok := by
